@@ -65,6 +65,80 @@ pub fn compound_roundtrip(parts: &[(String, i64, i64)]) -> Result<String, String
     Ok(d1)
 }
 
+/// A compound built the way a caller of the library builds one - decoded, then changed through the public
+/// `Compound::update` / `Compound::update_power` - must round trip like any other: bytes -> Compound equal to the one
+/// written, and written again byte for byte the same. `muts`: (kind, key, power, prefix), kind 0 = update, 1 = update_power.
+/// Returns how many entries with power 0 the written compound held.
+pub fn compound_mutated_roundtrip(
+    parts: &[(String, i64, i64)],
+    muts: &[(u8, String, i64, i64)],
+) -> Result<usize, String> {
+    let value = compound_value(parts).ok_or("bad key")?;
+    let mut c: Compound =
+        serde_cbor::value::from_value(value).map_err(|e| format!("decode from value: {e}"))?;
+    // The expected structure is tracked here, independently of the compound's own encoding.
+    let mut model: BTreeMap<String, (i64, i64)> = parts.iter().map(|(k, p, x)| (k.clone(), (*p, *x))).collect();
+
+    for (kind, key, power, prefix) in muts {
+        let unit: anything::Unit = serde_cbor::value::from_value(key_to_cbor(key).ok_or("bad key")?)
+            .map_err(|e| format!("decode unit {key}: {e}"))?;
+
+        if *kind == 0 {
+            // (what `update` accepts is its own business: the model follows its verdict)
+            if c.update(unit, *power as i32, *prefix as i32).is_ok() {
+                match model.get_mut(key) {
+                    None => {
+                        model.insert(key.clone(), (*power, *prefix));
+                    }
+                    Some(st) => {
+                        st.0 += *power;
+                        if st.0 == 0 {
+                            model.remove(key);
+                        }
+                    }
+                }
+            }
+        } else {
+            c.update_power(unit, *power as i32);
+            if let Some(st) = model.get_mut(key) {
+                st.0 = *power;
+            }
+        }
+    }
+
+    let bytes = serde_cbor::to_vec(&c).map_err(|e| format!("encode: {e}"))?;
+    let back: Compound = serde_cbor::from_slice(&bytes).map_err(|e| format!("decode after {} changes: {e}", muts.len()))?;
+
+    if back != c {
+        return Err(format!("decoded compound `{}` differs from encoded `{}`", back, c));
+    }
+
+    let again = serde_cbor::to_vec(&back).map_err(|e| format!("encode again: {e}"))?;
+
+    if again != bytes {
+        return Err("the decoded compound encodes to other bytes than it was decoded from".into());
+    }
+
+    // Generic view of the bytes (not through Compound): exactly the tracked entries.
+    let generic: Cbor = serde_cbor::from_slice(&bytes).map_err(|e| format!("generic decode of the written bytes: {e}"))?;
+    let zeros = model.values().filter(|st| st.0 == 0).count();
+    // (a cancelled unit - power 0 - may or may not be written; every other entry must be there exactly)
+    let mut got: Vec<_> = crate::obs::parts_of_generic(&generic)?.into_iter().filter(|p| p.1 != 0).collect();
+    got.sort();
+    let mut want: Vec<(String, i64, i64)> = model.iter().filter(|(_, st)| st.0 != 0).map(|(k, (p, x))| (k.clone(), *p, *x)).collect();
+    want.sort();
+
+    if got != want {
+        return Err(format!("structure changed: built {:?}, the written bytes hold {:?}", want, got));
+    }
+
+    if c.to_string() != back.to_string() {
+        return Err(format!("display changed: `{}` vs `{}`", c, back));
+    }
+
+    Ok(zeros)
+}
+
 /// Round trip a rational through CBOR and JSON.
 pub fn rational_roundtrip(n: &BigInt, d: &BigInt) -> Result<(), String> {
     let r = Rational::new(n.clone(), d.clone());
